@@ -142,6 +142,9 @@ impl Iterator for FlopExhaustiveEvaluatorIterator {
                     is_materialized = false;
                 }
 
+                self.current_used_cards.insert(entry.0[0]);
+                self.current_used_cards.insert(entry.0[1]);
+
                 player_card_pairs.push(entry.0);
                 probability *= entry.1;
             }
